@@ -19,6 +19,8 @@ import Rooc.Proofs.BuilderLemmas
 import Rooc.Proofs.SemDefined
 import Rooc.Proofs.RefLemmas
 import Rooc.Proofs.RatInst
+import Rooc.Proofs.BuilderHistLemmas
+import Rooc.Proofs.ComposeSolver
 namespace Rooc.Props.C16
 open Rooc Rooc.Exp Rooc.Builder
 
@@ -277,6 +279,117 @@ theorem intoModel_feasible_inDomain {K : Type} [Field K] [LinearOrder K] [IsStri
   simp only [Sem.srcFeasible, Bool.and_eq_true, List.all_eq_true] at hf
   have := hf.2 { name := p.1, ty := p.2, usage := 1 } (by rw [hd]; exact List.mem_map.2 ⟨p, hp, rfl⟩)
   simpa using this
+
+/-! ### 7. builder CALL HISTORIES (`Rooc/BuilderHist.lean`: the `ModelBuilder` state machine)
+
+`run BState.new ops` replays a history of `add_var / add_vars / with / with_all / maximize / minimize / satisfy` calls
+(every call under `catch_unwind` in the harness: after the duplicate-name panic the builder is used on). -/
+section histories
+variable {α : Type} [Arith α]
+
+/-- every history keeps the builder's invariant: `variable_names` are exactly the keys of the domain map, in
+declaration order, and PAIRWISE DISTINCT — duplicate rejection is what discharges the `names.Nodup` hypothesis of
+`toExp_injective_on_shape` / `evalExpr_eq_eval_vals` for every model a builder can produce. -/
+theorem history_invariant (ops : List (Op α)) :
+    let s := (run (BState.new : BState α) ops).1
+    s.variableNames = s.domain.map (·.1) ∧ s.variableNames.Nodup :=
+  let h := run_inv ops (inv_new (α := α)); ⟨h.keys, h.nodup⟩
+
+/-- duplicate rejection, exactly: in a state reached by a history `add_var` panics iff the name is declared;
+otherwise it mints the next index, which resolves to that name, and changes nothing else. -/
+theorem addVar_spec (ops : List (Op α)) (n : String) (ty : VarType α) :
+    let s := (run (BState.new : BState α) ops).1
+    ((∃ e, addVar s n ty = .error e) ↔ n ∈ s.variableNames) ∧
+    (∀ s' h, addVar s n ty = .ok (s', h) → h = s.variableNames.length ∧ s'.variableNames[h]? = some n ∧
+      s'.variableNames = s.variableNames ++ [n] ∧ s'.domain = s.domain ++ [(n, ty)] ∧
+      s'.constraints = s.constraints ∧ s'.objective = s.objective) := by
+  refine ⟨addVar_error_iff (run_inv ops inv_new) n ty, fun s' h hok => ?_⟩
+  obtain ⟨h1, h2, h3, h4, h5, _⟩ := addVar_ok hok
+  exact ⟨h1, addVar_handle_resolves hok, h2, h3, h4, h5⟩
+
+/-- handles are stable: whatever a handle resolves to at some point of a history, it resolves to after any further
+calls (names are only ever appended). -/
+theorem history_handles_stable (s : BState α) (ops : List (Op α)) {h : Nat} {n : String}
+    (hr : s.variableNames[h]? = some n) : (run s ops).1.variableNames[h]? = some n :=
+  resolves_of_prefix (run_prefix ops s) hr
+
+/-- CLOSED FORM of a history: the declarations are those of the declaration calls alone, the constraints are the
+added ones in call order (`with_all cs` = the `with`s of `cs`), and the LAST objective call wins. -/
+theorem history_closed_form (ops : List (Op α)) (s : BState α) :
+    (run s ops).1.variableNames = (run s (ops.filter isDecl)).1.variableNames ∧
+    (run s ops).1.domain = (run s (ops.filter isDecl)).1.domain ∧
+    (run s ops).1.constraints = s.constraints ++ consOf ops ∧
+    (run s ops).1.objective = (match lastObj ops with | some o => some o | none => s.objective) :=
+  run_closed ops s
+
+/-- ORDER INDEPENDENCE ("objective before/after constraints, with / with_all"): two histories with the same
+declaration calls, the same constraints in the same order and the same last objective build the same model. -/
+theorem history_order_independent (ops₁ ops₂ : List (Op α)) (s : BState α)
+    (hd : ops₁.filter isDecl = ops₂.filter isDecl) (hc : consOf ops₁ = consOf ops₂)
+    (ho : lastObj ops₁ = lastObj ops₂) : (run s ops₁).1.intoModel = (run s ops₂).1.intoModel := by
+  obtain ⟨a1, a2, a3, a4⟩ := run_closed ops₁ s
+  obtain ⟨b1, b2, b3, b4⟩ := run_closed ops₂ s
+  have : (run s ops₁).1 = (run s ops₂).1 := by
+    cases h1 : (run s ops₁).1; cases h2 : (run s ops₂).1
+    simp only [h1, h2] at a1 a2 a3 a4 b1 b2 b3 b4
+    simp only [BState.mk.injEq]
+    exact ⟨by rw [a1, b1, hd], by rw [a2, b2, hd], by rw [a3, b3, hc], by rw [a4, b4, ho]⟩
+  rw [this]
+
+/-- `into_model` of a history is `Builder.intoModel` of the declared variables, constraints and objective it
+accumulated — so every theorem of section 6 applies to it. -/
+theorem history_intoModel (ops : List (Op α)) :
+    let s := (run (BState.new : BState α) ops).1
+    s.intoModel = intoModel { vars := s.domain, constraints := s.constraints, objective := s.objective } :=
+  BState.intoModel_eq (run_inv ops inv_new).keys
+
+/-- the model of a history: closed (C03's hypothesis), every declared variable marked, names pairwise distinct. -/
+theorem history_model (ops : List (Op α)) {m : Model α}
+    (h : (run (BState.new : BState α) ops).1.intoModel = some m) :
+    Ref.Closed m = true ∧ (∀ d ∈ m.domain, d.usage = 1) ∧ (m.domain.map (·.name)).Nodup ∧
+    m.domain.map (·.name) = (run (BState.new : BState α) ops).1.variableNames := by
+  have hi := run_inv ops (inv_new (α := α))
+  rw [history_intoModel] at h
+  obtain ⟨_, h2, h3, _⟩ := intoModel_marks_all h
+  refine ⟨intoModel_closed_model h, h3, ?_, ?_⟩
+  · rw [h2]; simpa [← hi.keys] using hi.nodup
+  · rw [h2]; simpa using hi.keys.symm
+
+end histories
+
+/-! ### 8. `BuilderSolution::eval` at the returned solution is the language semantics -/
+section readback
+variable {K : Type} [Field K] [LinearOrder K] [IsStrictOrderedRing K] [FloorRing K]
+open Rooc.Compose
+
+/-- `eval` resolves a handle to the solved value of its name (0 for a handle or name without a value); whenever the
+language semantics gives the translated expression a value at the assignment the solution denotes
+(`Compose.assignmentOf`, the assignment the C03 theorems speak about), `eval` returns exactly that value.  Finite
+solution values is a decidable condition on the returned `LpSolution`. -/
+theorem solution_eval_eq_semEval (b : BSolution (Ext K))
+    (hfin : ∀ n val, b.solution.valueOf n = some val → ∃ k : K, val.toNum = .fin k)
+    {e e' : Exp (Ext K)} {v : K} (ht : toExp b.variableNames e = some e')
+    (hv : Sem.eval (assignmentOf b.solution) e' = some v) : b.eval e = .fin v := by
+  refine evalExpr_eq_eval b.variableNames (assignmentOf b.solution) b.resolver ?_ ht hv
+  intro i hi
+  simp only [BSolution.resolver, BSolution.numericValue, BSolution.varValue, List.getElem?_eq_getElem hi,
+    assignmentOf]
+  cases hval : b.solution.valueOf b.variableNames[i] with
+  | none => simp
+  | some val =>
+    obtain ⟨k, hk⟩ := hfin _ _ hval
+    simp [hk, StdSem.toK]
+
+/-- `var_value` / `numeric_value` through a handle are the value of the handle's NAME in the solver's solution
+(first duplicate wins, `SolverWrap.Solution.valueOf`), `None` for a handle that does not belong to the model. -/
+theorem solution_varValue (b : BSolution (Ext K)) (h : Nat) :
+    (∀ n, b.variableNames[h]? = some n → b.varValue h = b.solution.valueOf n ∧
+      b.numericValue h = (b.solution.valueOf n).map SolverWrap.Val.toNum) ∧
+    (b.variableNames.length ≤ h → b.varValue h = none ∧ b.numericValue h = none ∧ b.resolver h = .fin 0) := by
+  refine ⟨fun n hn => by simp [BSolution.varValue, BSolution.numericValue, hn], fun hle => ?_⟩
+  simp [BSolution.varValue, BSolution.numericValue, BSolution.resolver, List.getElem?_eq_none hle]
+
+end readback
 
 /-! ### Non-vacuity: a concrete builder model at `K = ℚ`
 
